@@ -7,8 +7,8 @@ import types
 from .. import bind
 from ..core import Check, Space
 
-BEHAVIOURS = ("identity", "md", "rename", "addarg", "replarg", "md+rename")
-PLACES = ("class", "method", "both", "both-same", "func", "prop", "func+method")
+BEHAVIOURS = ("identity", "md", "rename", "addarg", "replarg", "md+rename", "rebuild", "md+rebuild")
+PLACES = ("class", "method", "both", "both-same", "func", "prop", "proplist", "func+method")
 
 MODEL_SRC = '''
 from __future__ import annotations
@@ -19,12 +19,18 @@ LOG = []
 ATTACHED = []
 def _act(kind, owner, behaviour):
     def cb(s, a, *params):
-        LOG.append((kind, owner, ast.unparse(a), params))
+        LOG.append((kind, owner, ast.unparse(a), copy.deepcopy(params)))
+        for p in params:
+            if isinstance(p, list):
+                p.append("edited by the callback")  # its own copy of the parameters: nobody else may notice
         b = behaviour
         if "md" in b:
             d = {"cb": kind + ":" + owner, "n": len(ATTACHED)}
             ATTACHED.append(d)
             s = s.MetaData(d)
+        if "rebuild" in b:
+            # a call node the callback builds itself (same content), not the node it was given nor a copy of it
+            a = ast.Call(func=a.func, args=list(a.args), keywords=list(a.keywords))
         if "rename" in b or "addarg" in b or "replarg" in b:
             a = copy.copy(a)
             a.args = list(a.args)
@@ -57,7 +63,7 @@ def class_src(name, place, beh, members, inherit=False, generic=False):
         deco_m = f"    @func_adl_callback(_act('method', '{name}', 'md'))\n"
     body = f"{deco_m}    def tgt(self, p: int, q: int = 5) -> float: ...\n"
     body += "    def other(self) -> float: ...\n"
-    if place == "prop":
+    if place in ("prop", "proplist"):
         body += f"    @func_adl_parameterized_call(_act('prop', '{name}', '{beh}'))\n    @property\n" \
                 f"    def par(self): ...\n"
     for m in members:
@@ -111,6 +117,8 @@ def call_text(place, var, arg):
         return f"fn({var}.other(), {arg})"
     if place == "prop":
         return f"{var}.par[{arg!r}, 'p{arg}']({arg})" if arg % 2 else f"{var}.par['t{arg}']({arg})"
+    if place == "proplist":
+        return f"{var}.par[['x', 'y']]({arg})"  # a mutable parameter, spelled identically at every site
     return f"{var}.tgt({arg})" if arg != 2 else f"{var}.tgt({arg}, 7)"
 
 
@@ -133,6 +141,10 @@ SITES = [
     ("fnres", "good(e).Select(lambda j: {c1})", [("Jet", "j", 1)], ("Select", "SelectMany")),
     ("fnres-where", "good(e, 4).Where(lambda j: {c1} > 1).Count()", [("Jet", "j", 1)], ("Select",)),
     ("none", "e.a() + e.jets().Select(lambda j: j.pt()).First()", [], ("Select", "Where")),
+    # an inner lambda re-uses the outer parameter's name; a site on the OUTER parameter comes after the nested lambda
+    ("shadow-then-outer", "(e.jets().Select(lambda e: {c1}), {c2})", [("Jet", "e", 1), ("Ev", "e", 2)], ("Select",)),
+    ("shadow-then-outer-d2", "e.jets().Select(lambda j: (j.trks().Select(lambda j: {c1}), {c2}))", [("Trk", "j", 1), ("Jet", "j", 2)], ("Select",)),
+    ("outer-then-shadow", "({c2}, e.jets().Where(lambda e: {c1} > 1))", [("Jet", "e", 1), ("Ev", "e", 2)], ("Select",)),
 ]
 
 
@@ -141,7 +153,8 @@ class C09(Check):
     title = "Callbacks fire at every matching call site and their metadata reaches the stream"
     rule = ("every placement of callbacks (class, method, both, function processor, parameterized property with "
             "parameter tuples of length 1 and 2 over str/int) x every callback behaviour (identity, attach MetaData, "
-            "rename the call, append an argument, replace an argument, MetaData + rename) x every call-site shape "
+            "rename the call, append an argument, replace an argument, MetaData + rename, return a call node it built itself with the "
+            "same content, the latter + MetaData; the callback edits the list parameters it receives) x every call-site shape "
             "(depth 1..3 inside Select / Where of typed collections, one or two sites per lambda, sites at two depths, "
             "no site at all) x stream operator Select / Where / SelectMany, on a fresh and on an already derived "
             "parent stream, with the methods defined on the decorated class or inherited from an undecorated base, with a "
@@ -230,7 +243,7 @@ class C09(Check):
                 expected.append(("func", owner))
             if kind == "call" and place == "func+method" and meth == "tgt":
                 expected.append(("method", owner))
-            elif kind == "prop" and place == "prop":
+            elif kind == "prop" and place in ("prop", "proplist"):
                 expected.append(("prop", owner))
         got = [(k, o) for k, o, _, _ in log]
         for e_ in set(expected):
@@ -249,6 +262,12 @@ class C09(Check):
                 im = tl.index(("method", cls))
                 if ic < 0 or ic > im:
                     res["viol"].append({"kind": "method-callback-before-class-callback", "canon": canon, "msg": str(got)})
+                    return res
+        if place == "proplist":
+            for k, o, _, p in log:
+                if k == "prop" and p != (["x", "y"],):
+                    res["viol"].append({"kind": "property-parameters-not-passed-by-value", "canon": canon,
+                                        "msg": f"wanted (['x', 'y'],), callback of {o} received {p}"})
                     return res
         if place == "prop":
             for (cls, var, arg) in site[2]:
@@ -366,11 +385,11 @@ def _expected_call(place, beh, var, arg):
     if place == "func+method":
         return f"{var}.tgt({arg}, 5)"
     kinds = {"class": ["class"], "method": ["method"], "both": ["class", "method"], "both-same": ["shared", "shared"],
-             "func": ["func"], "prop": ["prop"]}[place]
+             "func": ["func"], "prop": ["prop"], "proplist": ["prop"]}[place]
     if place == "func":
         name, args = "fn", [f"{var}.other()", str(arg)]
         full = args + ([] if len(args) >= 2 else ["3"])
-    elif place == "prop":
+    elif place in ("prop", "proplist"):
         name, full = "par", [str(arg)]
     else:
         name, full = "tgt", [str(arg), "5" if arg != 2 else "7"]
